@@ -13,12 +13,13 @@ from engines import cssobs
 GLUE_BEFORE = {":", ";", ")", ","}
 WS = "  \n\t "
 CMT = " // zz\n"
+CMT2 = " //zz\n"          # no blank after the slashes
 
 
 def join_tokens(toks, triv=()):
     ins = {}
     for t in triv:
-        ins.setdefault(t["g"], []).append(WS if t["k"] == "ws" else CMT)
+        ins.setdefault(t["g"], []).append(WS if t["k"] == "ws" else (CMT if t["g"] % 2 else CMT2))
     out = ["".join(ins.get(0, []))]
     for i, tok in enumerate(toks):
         if i > 0:
@@ -239,7 +240,7 @@ class C35(Engine):
             for (g, allowed) in picks:
                 kind = rng.choice(allowed)
                 kinds.append({"g": g, "k": kind})
-                new = new[:g] + (WS if kind == "ws" else CMT) + new[g:]
+                new = new[:g] + (WS if kind == "ws" else (CMT if g % 2 else CMT2)) + new[g:]
             cases.append(dict(api="compile_scss", src=src, id=f"b#{i}#o"))
             cases.append(dict(api="compile_scss", src=new, id=f"b#{i}#c"))
             metas.append((fn, src, new, kinds))
@@ -260,6 +261,12 @@ class C35(Engine):
         ctx.extra["corpus_inputs"] = len(events)
 
     def run(self, ctx):
+        # the model-level law has teeth: renaming a function without the side condition is found by TLC
+        r = ctx.mc("MC_Rewrite", "MC_Rewrite_neg.cfg", workers=2, timeout=300, expect_violation=True)
+        if not (r["violated"] and "InvPreserved" in r["out"]):
+            raise tlc.ToolError("MC_Rewrite_neg.cfg: the law does not detect an unguarded function renaming (vacuous law)")
+        ctx.exhaustive = None
+        ctx.notes.append("MC_Rewrite_neg.cfg: TLC finds Result(rewrite(p)) # Result(p) when a function is renamed although a call runs before its declaration")
         for (module, cfg, kw) in self.mc_runs[ctx.tier]:
             r = ctx.mc(module, cfg, **kw)
             vecs = list(ctx.vectors(r))
